@@ -289,7 +289,15 @@ func (g *Gen) block(sc *scope, t *Type, depth int) *Block {
 	}
 	var lets []*varInfo
 	for i := 0; i < n; i++ {
-		switch k := g.intn(10, "stmtKind"); {
+		switch k := g.intn(12, "stmtKind"); {
+		case k == 10 && g.P.Buf && depth > 0:
+			st, v := g.bufEpisode(inner, depth-1)
+			b.Stmts = append(b.Stmts, st...)
+			lets = append(lets, v)
+		case k == 11 && g.P.Dict && depth > 0:
+			st, vs := g.dictEpisode(inner, depth-1)
+			b.Stmts = append(b.Stmts, st...)
+			lets = append(lets, vs...)
 		case k <= 3:
 			vt := g.pickDataType("letType")
 			g.inRhs++
@@ -420,6 +428,131 @@ func (g *Gen) letName(inner *scope, vt *Type, prefix string) string {
 		return other[g.intn(len(other), "shadowWhichOther")].name
 	}
 	return g.fresh(prefix)
+}
+
+// bufEpisode: a buffer is made, written to in several call forms (direct, piped, under an if, through a
+// partial application or a closure handed to slice.Iter) and read back into a string variable.
+func (g *Gen) bufEpisode(sc *scope, depth int) ([]*Stmt, *varInfo) {
+	g.label("buf.Buffer episode")
+	bn := g.fresh("b")
+	bv := Var(bn, TBuf)
+	out := []*Stmt{Let(bn, Call("buf.New", TBuf, &Expr{K: "unit", T: TUnit}))}
+	sc.add(bn, TBuf).used++
+	d := depth
+	if d > 1 {
+		d = 1
+	}
+	n := 1 + g.intn(3, "bufWrites")
+	for i := 0; i < n; i++ {
+		switch g.intn(5, "bufWriteForm") {
+		case 0:
+			out = append(out, ExprStmt(&Expr{K: "pipe", T: TUnit, Args: []*Expr{g.expr(sc, TString, d), Call("buf.Write", TFunc([]*Type{TString}, TUnit), bv)}}))
+			g.label("pipe into buf.Write")
+		case 1:
+			e := &Expr{K: "if", T: TUnit, Args: []*Expr{g.expr(sc, TBool, d)}}
+			e.Then = Blk(Call("buf.Write", TUnit, bv, g.expr(sc, TString, d)))
+			out = append(out, ExprStmt(e))
+		case 2:
+			out = append(out, ExprStmt(Call("slice.Iter", TUnit, Call("buf.Write", TFunc([]*Type{TString}, TUnit), bv), g.expr(sc, TSlice(TString), d))))
+			g.label("partially applied buf.Write handed to slice.Iter")
+		case 3:
+			if g.P.Lambdas {
+				pn := g.fresh("x")
+				lam := &Expr{K: "lambda", T: TFunc([]*Type{TString}, TUnit), Params: []Param{{Name: pn, T: TString}},
+					Body: Blk(Call("buf.Write", TUnit, bv, Var(pn, TString)))}
+				out = append(out, ExprStmt(Call("slice.Iter", TUnit, lam, g.expr(sc, TSlice(TString), d))))
+				g.label("closure over a buffer")
+				break
+			}
+			fallthrough
+		default:
+			out = append(out, ExprStmt(Call("buf.Write", TUnit, bv, g.expr(sc, TString, d))))
+		}
+	}
+	rn := g.fresh("v")
+	out = append(out, Let(rn, Call("buf.String", TString, bv)))
+	return out, sc.add(rn, TString)
+}
+
+// dictEpisode: a dictionary is made (dict.New with explicit type arguments, or dict.ToDict), extended with
+// dict.Add (keys from a small pool, so overwrites happen) and queried. Keys / Values / KVs have no
+// specified order and are only read through slice.Sort or slice.Length.
+func (g *Gen) dictEpisode(sc *scope, depth int) ([]*Stmt, []*varInfo) {
+	g.label("dict.Dict episode")
+	kt := []*Type{TString, TInt}[g.intn(2, "dictKeyType")]
+	vt := []*Type{TInt, TString, TBool}[g.intn(3, "dictValType")]
+	dt := TDict(kt, vt)
+	dn := g.fresh("dc")
+	dv := Var(dn, dt)
+	d := depth
+	if d > 1 {
+		d = 1
+	}
+	key := func() *Expr {
+		if g.chance(1, 4, "dictKeyExpr") {
+			return g.expr(sc, kt, d)
+		}
+		if kt.K == "int" {
+			return Int(int64(g.intn(4, "dictKeyInt")))
+		}
+		return Str([]string{"a", "b", "", "k k"}[g.intn(4, "dictKeyStr")])
+	}
+	var out []*Stmt
+	if g.chance(1, 2, "dictViaToDict") {
+		var kvs []*Expr
+		for i, n := 0, g.intn(4, "dictLitLen"); i < n; i++ {
+			kvs = append(kvs, &Expr{K: "tuple", T: TTuple(kt, vt), Args: []*Expr{key(), g.expr(sc, vt, d)}})
+		}
+		if len(kvs) == 0 {
+			out = append(out, Let(dn, Call("dict.ToDict", dt, &Expr{K: "call", Name: "slice.New", T: TSlice(TTuple(kt, vt)), TArgs: []*Type{TTuple(kt, vt)}, Args: []*Expr{{K: "unit", T: TUnit}}})))
+		} else {
+			out = append(out, Let(dn, Call("dict.ToDict", dt, &Expr{K: "slice", T: TSlice(TTuple(kt, vt)), Args: kvs})))
+		}
+		g.label("dict.ToDict")
+	} else {
+		out = append(out, Let(dn, &Expr{K: "call", Name: "dict.New", T: dt, TArgs: []*Type{kt, vt}, Args: []*Expr{{K: "unit", T: TUnit}}}))
+	}
+	sc.add(dn, dt).used++
+	for i, n := 0, g.intn(4, "dictAdds"); i < n; i++ {
+		out = append(out, ExprStmt(Call("dict.Add", TUnit, dv, key(), g.expr(sc, vt, d))))
+	}
+	var vars []*varInfo
+	nq := 1 + g.intn(3, "dictQueries")
+	for i := 0; i < nq; i++ {
+		switch g.intn(6, "dictQuery") {
+		case 0:
+			a, b := g.fresh("d"), g.fresh("d")
+			out = append(out, &Stmt{K: "letd", Names: []string{a, b}, E: Call("dict.TryFind", TTuple(vt, TBool), dv, key())})
+			vars = append(vars, sc.add(a, vt), sc.add(b, TBool))
+			g.label("dict.TryFind destructured")
+		case 1:
+			n := g.fresh("v")
+			out = append(out, Let(n, Call("dict.ContainsKey", TBool, dv, key())))
+			vars = append(vars, sc.add(n, TBool))
+		case 2:
+			n := g.fresh("v")
+			out = append(out, Let(n, Call("dict.Item", vt, dv, key())))
+			vars = append(vars, sc.add(n, vt))
+		case 3:
+			n := g.fresh("v")
+			out = append(out, Let(n, &Expr{K: "pipe", T: TSlice(kt), Args: []*Expr{Call("dict.Keys", TSlice(kt), dv), Var("slice.Sort", TFunc([]*Type{TSlice(kt)}, TSlice(kt)))}}))
+			vars = append(vars, sc.add(n, TSlice(kt)))
+			g.label("dict.Keys sorted")
+		case 4:
+			if vt.K != "bool" {
+				n := g.fresh("v")
+				out = append(out, Let(n, Call("slice.Sort", TSlice(vt), Call("dict.Values", TSlice(vt), dv))))
+				vars = append(vars, sc.add(n, TSlice(vt)))
+				break
+			}
+			fallthrough
+		default:
+			n := g.fresh("v")
+			out = append(out, Let(n, Call("slice.Length", TInt, Call("dict.KVs", TSlice(TTuple(kt, vt)), dv))))
+			vars = append(vars, sc.add(n, TInt))
+		}
+	}
+	return out, vars
 }
 
 // leftmost returns the leaf the printed text of e starts with.
